@@ -12,7 +12,8 @@ ID = "C03"
 LEVEL = "exploration"
 DESIGN_REF = "DESIGN.md §4 C03"
 RULE = (
-    "A case = (which of 10 secret positions hold a value: root, nested sub-configurations at depth 1-3, a config "
+    "A case = (which of 11 secret positions hold a value (the last: an item moved from the root's list into the list of a "
+    "nested configuration): root, nested sub-configurations at depth 1-3, a config "
     "type and a schema below it, items of a list of schemas and of a list of config types, items of a typed list of "
     "secrets, entries of a typed dict of secrets in a nested configuration; a key-file plan: root "
     "constructor argument or none, _key_filename assignments to sub-configurations at three points of the "
@@ -36,7 +37,7 @@ ASSUMPTIONS = [
     "a key file assigned to a *schema* sub-configuration does not survive a load that replaces that "
     "sub-configuration (recorded known finding); such plans are labelled so the signature stays narrow",
 ]
-REQUIRED = ["secret:typed-list-item", "secret:typed-dict-entry", "plan:root-key", "plan:default", "plan:sub-assign", "plan:class-key", "plan:rekey", "plan:rotate", "plan:rotate-after-failed-save", "secret:root", "secret:depth3",
+REQUIRED = ["secret:typed-list-item", "secret:typed-dict-entry", "plan:root-key", "plan:default", "plan:sub-assign", "plan:class-key", "plan:rekey", "plan:rotate", "plan:rotate-after-failed-save", "secret:moved-item", "secret:root", "secret:depth3",
             "secret:configtype", "secret:list-item", "secret:ct-list-item", "default-key-must-not-exist"] + ["fmt:" + f for f in trees.FORMATS]
 LEVEL_TEXT = (
     "Generated key-file plans x secret placements x formats with a model of key inheritance, an independent "
@@ -46,7 +47,7 @@ LEVEL_TEXT = (
 LEVEL_NOTE = "Trusted: CPython, Hypothesis, vlib/aesref.py, json/yaml/pickle/bson decoders, sys.audit open events."
 TECHNIQUE = "model-based property testing (Hypothesis): key-inheritance model + independent decoder/cipher + audited file access"
 
-POSITIONS = ["s0", "a.s1", "a.b.s2", "a.b.c.s3", "t.s4", "t.u.s5", "items[].s6", "titems[].s7", "slist[]", "a.sdict{}"]
+POSITIONS = ["s0", "a.s1", "a.b.s2", "a.b.c.s3", "t.s4", "t.u.s5", "items[].s6", "titems[].s7", "slist[]", "a.sdict{}", "a.moved[].s6"]
 SUBCONFIGS = ["a", "a.b", "a.b.c", "t", "t.u"]
 B64 = set("ABCDEFGHIJKLMNOPQRSTUVWXYZabcdefghijklmnopqrstuvwxyz0123456789+/=")
 
@@ -110,6 +111,7 @@ def _build(cc, case, d):
     root.titems = cc.ListField(TI)
     root.slist = cc.ListField(sec(8))            # a typed list of secrets
     root.a.sdict = cc.DictField(cc.StringField(), sec(9))   # a typed dict of secrets in a nested configuration
+    root.a.moved = cc.ListField(item)            # same item schema as root.items: items travel from there to here
     return root, T, TI
 
 
@@ -151,6 +153,8 @@ def _owner(position, idx=None):
         return "items[%d]" % idx
     if position.startswith("titems[]"):
         return "titems[%d]" % idx
+    if position.startswith("a.moved[]"):
+        return "a.moved[%d]" % idx
     return position.rpartition(".")[0]
 
 
@@ -258,6 +262,21 @@ def run_case(case, R):
                 cfg.slist = cur + [text]
                 secrets[(pos, idx)] = text
                 R.label("secret:typed-list-item")
+                continue
+            if pos == "a.moved[].s6":
+                # the item first belongs to the root's list (and gets its secret there), then it is moved into the list
+                # of the nested configuration, which may resolve to another key file
+                cfg.items.append({"name": "mv%d" % k})
+                moving = cfg.items[len(cfg.items) - 1]
+                moving.s6 = text
+                cfg.items.pop()
+                if cfg.a.moved is None:
+                    cfg.a.moved = [moving]
+                else:
+                    cfg.a.moved.append(moving)
+                idx = len(cfg.a.moved) - 1
+                secrets[(pos, idx)] = text
+                R.label("secret:moved-item")
                 continue
             if pos == "a.sdict{}":
                 idx = k
@@ -389,6 +408,8 @@ def run_case(case, R):
                         got = cfg2.items[idx].s6
                     elif pos.startswith("titems[]"):
                         got = cfg2.titems[idx].s7
+                    elif pos.startswith("a.moved[]"):
+                        got = cfg2.a.moved[idx].s6
                     else:
                         got = _sub(cfg2, pos)
                 except Exception as exc:
